@@ -9,6 +9,14 @@ COMMON_NOTE = ("Trusted base: CPython 3.12, numpy/scipy, icontract (or vlib.atta
                "(independent of molgri, see DESIGN.md section 3.2/5). Decides only the executions produced; nothing is 'verified'.")
 
 CHECKS = {
+    "C02": dict(
+        technique="runtime monitors (postconditions / outcome monitors on FullGrid.get_full_adjacency/borders/distances/get_total_volumes) against a sparse Kronecker composition of the sub-grids' own quantities",
+        text="Every full-grid matrix is compared with kron(X_pos, I)*alpha + kron(I, X_rot)*beta built from the object's own position-grid and "
+             "rotation-grid getters (uniform factor family, same for borders and distances), and judged for symmetry, empty diagonal, strictly "
+             "positive finite entries, one pattern and stored order across the triple; volumes against V_pos*V_rot*f^3 in grid order. The "
+             "C03/C05/C07/C09/C16 monitors run on the same executions. Random grids over both rotation algorithms (n_b up to 20 quick / 40 "
+             "thorough), three direction algorithms, unequal radii, four factors, both modes.",
+        design_ref="5/C02"),
     "C08": dict(
         technique="online RNG trace specification over hooked numpy.random calls + offline bitwise comparison of recorded getter digests across random histories and a fresh interpreter",
         text="(i) every call to numpy's global generator is logged with its call site; an online checker requires that every draw made from molgri "
